@@ -134,6 +134,12 @@ def run(ctx: vlib.Ctx):
         "it only grows afterwards (setdefault never removes)",
         "harness/c17_run.py program_world / program_assembly: extraction of the object model (which objects the chains touch, recorded imports via "
         "run-time rebinding of CodeBuilder.ensure_object_imported / ensure_module_imported) and its serialisation into the shard files",
+        "harness/c17_render.py: independent reading of typing objects into Render.rty (types outside the grammar - TypeVar, Unpack, ForwardRef, "
+        "Callable - are skipped and counted); Render.render is compared with mashumaro's type_name on every field annotation of every generated "
+        "schema and with the text of the generated MissingField paths / defaultdict factories",
+        "kernel K41 (tools/kernels/k41_clean_id.py): the regular expression \\W|^(?=\\d) is read as a character map after checking that the pattern "
+        "text and the body of clean_id are exactly the expected ones (fail closed); the \\w / \\d tables below code point 0x3000 come from Python's re "
+        "with the pattern read from the source and are validated against the real clean_id exhaustively on every run; code points >= 0x3000 are outside the kernel",
         "NsBind.clean_id models re.sub(r'\\W|^(?=\\d)', '_', s) for ASCII input only (compared with the implementation each run)",
     ]
     ctx.assumptions += [
